@@ -34,6 +34,8 @@ pub struct Run {
     pub seen_ids: Vec<Vec<u8>>,
     /// concurrent mode: the shared store's contents, read through the lock wrapper
     pub extern_contents: Option<Vec<Passkey>>,
+    /// the descriptors of the current request carry an unknown credential type
+    pub unknown_type: bool,
 }
 
 fn alg_of(name: &str) -> iana::Algorithm {
@@ -76,7 +78,7 @@ pub fn build_auth_with<S: passkey_authenticator::CredentialStore>(cfg: &Value, s
 
 impl Run {
     pub fn new(seed: u64) -> Self {
-        Run { sh: new_shared(), client: None, cfg: Value::Null, rng: util::rng(seed), salts: vec![], cdh: vec![], seen_ids: vec![], extern_contents: None }
+        Run { sh: new_shared(), client: None, cfg: Value::Null, rng: util::rng(seed), salts: vec![], cdh: vec![], seen_ids: vec![], extern_contents: None, unknown_type: false }
     }
 
     pub fn reset(&mut self, run: u64, cfg: &Value, store: &Value) {
@@ -149,6 +151,7 @@ impl Run {
     }
 
     pub fn descriptors(&mut self, names: &Value) -> Vec<PublicKeyCredentialDescriptor> {
+        let unknown_type = self.unknown_type;
         names
             .as_array()
             .unwrap()
@@ -157,7 +160,8 @@ impl Run {
                 let sh = self.sh.clone();
                 let mut s = sh.lock().unwrap();
                 PublicKeyCredentialDescriptor {
-                    ty: PublicKeyCredentialType::PublicKey,
+                    // the request may present its descriptors with a type string this library does not know
+                    ty: if unknown_type { PublicKeyCredentialType::Unknown } else { PublicKeyCredentialType::PublicKey },
                     id: s.dict.cred_bytes(n.as_str().unwrap(), &mut self.rng).into(),
                     transports: None,
                 }
@@ -451,6 +455,7 @@ impl Run {
     pub fn ceremony(&mut self, c: &Value) {
         self.salts.clear();
         self.set_env(&c["env"]);
+        self.unknown_type = c["req"]["unkType"].as_bool().unwrap_or(false);
         let api = c["api"].as_str().unwrap();
         let op = c["op"].as_str().unwrap();
         self.push(json!({"ev": "Begin", "d": {"api": api, "op": op, "req": c["req"], "env": c["env"]}}));
